@@ -5,18 +5,52 @@ class C23(Prop):
     pid = "C23"
     check_mod = "C23"
     drivers = [dict(pkg="internal/stream", test="TestVerifC23")]
-    n_quick = 600
+    n_quick = 400
     n_thorough = 40000
-    shard = 100
-    ready = False
-    level = "partial"
+    shard = 40
+    ready = True
     manifest = dict(
-        text="TODO",
-        note="TODO",
-        technique="Coq proof + correspondence via vm_compute; differential for the formats not modelled")
-    rule = "TODO"
-    trusted_base = ["Coq 8.16.1 kernel + VM (vm_compute for cases)"]
-    assumptions = []
+        text="PARTIAL. Proved in Coq for all inputs: (a) the RTP glue of subStreamFormat.writeUnitInner/initialize (generic in "
+             "the packetizer): a unit is re-encoded iff an encoder existed or some incoming payload exceeds the maximum; the "
+             "encoder created on the first oversized packet takes that packet's SSRC and sequence number and offset = its "
+             "timestamp - uint32(PTS); forwarded packets are never oversized; an oversized packet of a format without encoder is "
+             "dropped with an error; every generated packet carries offset + uint32(PTS) mod 2^32 and the offset never changes; "
+             "(b) the RTP/H.264 packetizer of gortsplib (single NAL / STAP-A / FU-A) transliterated together with its decoder: "
+             "every payload <= PayloadMaxSize for every access unit (PayloadMaxSize >= 3), no failure, sequence numbers "
+             "consecutive mod 2^16 within and across units, one SSRC, and decode(encode au) = au for every access unit of "
+             "well-formed NAL units (per unit and for every sequence of units), composed through the glue. For the other 16 "
+             "formats (H.265, AV1, VP8, VP9, MPEG-4 Video, MPEG-1 Video, M-JPEG, Opus, MPEG-4 Audio, LATM, MPEG-1 Audio, AC-3, "
+             "G.711, LPCM, KLV, FLAC) and for a format without encoder there is NO theorem: the check evaluates the boolean form "
+             "of the property (size bound, consecutive sequence numbers, one SSRC, offset + PTS (+ per-packet audio increments), "
+             "decode(encode) = delivered payload with the format's real rtpDecoder, oversize trigger, passthrough untouched) "
+             "inside Coq on the packets the real code produced - differential testing only.",
+        note="Trusted: Coq kernel+VM, the in-package driver and fixture, the hand-written models (tied by correspondence: the "
+             "H.264 model must reproduce every observed packet and every observed decoder answer). The gortsplib packetizers "
+             "other than rtph264 are library code outside the proof. H.264 round trip needs well-formed NAL units (non-empty, "
+             "forbidden_zero_bit clear, type not 24..29, no start code inside; at most 50 NAL units / 8 MiB per unit): "
+             "C23_roundtrip_needs_forbidden_zero_bit shows the condition is necessary. Expected audio timestamp increments "
+             "inside one unit are computed by the driver from format constants.",
+        technique="Coq proof (induction over the access unit / fragment loop / STAP-A entries / unit sequence, finite sweeps for "
+                  "the bit-level header facts) + correspondence via vm_compute; differential testing for 16 formats")
+    rule = ("scenarios = one real streamFormat/subStreamFormat + maximum 16..1460 (65% 16..64 so that every boundary is hit with "
+            "short payloads; 255..262; 1200..1460) + 1-4 units pushed through the real writeUnitInner, 60% as payloads (encoder "
+            "created by initialize, random SSRC/sequence number/offset read back), 40% as RTP packets of a source encoder with "
+            "a larger maximum (passthrough first, then the encoder is created on the first oversized packet; sequence numbers "
+            "near 65535); PTS over 0, 2^31, 2^32 neighbours, negative, 63-bit. Sizes: max-3..max+3, k*(max-2)+-3, "
+            "k*max+-3, (max-3)/2, 1..4, random, 64 KiB / 128 KiB units. 40% H.264 (single, STAP-A, FU-A, mixed, outside the "
+            "round-trip precondition), 60% round-robin over the 17 other formats; 10 directed scenarios first (witnesses of the "
+            "findings, H.264 boundary ladders at max 16/100/1460). Non-trivial = at least one unit was re-encoded")
+    trusted_base = ["Coq 8.16.1 kernel + VM (vm_compute for cases; primitive 63-bit integers only to ship byte strings compactly)",
+                    "in-package Go driver zz_verif_c23*_test.go + fixture zz_verif_streamfx_test.go (package stream)",
+                    "models Model/C23_RtpGlue.v, Model/C23_RtpH264.v hand-written, tied by correspondence",
+                    "oracles shipped by the driver: delivered payload (C22's territory), result of the incoming rtpDecoder, "
+                    "availability of an encoder for the format, audio timestamp increments",
+                    "gortsplib packetizers/depacketizers of the 16 formats not modelled (differential only)"]
+    assumptions = ["PayloadMaxSize >= 3 (FU-A) and < 65536 (STAP-A size field); the configuration caps udpMaxPayloadSize at 1472 "
+                   "but has no lower bound (udpMaxPayloadSize <= 14 makes rtph264 divide by zero: outside this property)",
+                   "payloads handed to the encoders satisfy each encoder's documented precondition (non-empty elements, valid "
+                   "JPEG / MPEG audio / AC-3 headers): the generators only produce such payloads",
+                   "one RTP packet per incoming unit, as the RTSP and WebRTC publishers deliver them"]
 
 
 PROP = C23()
